@@ -15,7 +15,7 @@ import ast
 
 from ..core import Rule, AnalysisError, node_src
 from ..engine.pyindex import walk_no_nested, is_self_attr
-from .pC50 import Mini, UNK, NS, Unmodelled, _model
+from .pC50 import Mini, UNK, NS, Unmodelled, _model, PLEX
 
 ADVANCE = (('at-start', 0), ('advanced', 2))
 
@@ -123,4 +123,1775 @@ def rule_eof(px):
     t = scan_decisions(pc.body[1], pc, consts)
     r.positive_control(t[(False, 'advanced', 'EOF')] == 'end-of-file' and t[(False, 'at-start', 'EOF')] == 'end-of-file' and t[(False, 'advanced', "'x'")] == 'error',
                        'position guard not applied to the EOF alternative (and/or precedence)')
+    return r
+
+
+# ======================================================================================================================
+#  PyEval - a checker-owned evaluator for small, pure Python functions of the analysed tree
+# ======================================================================================================================
+# Rules use it for FINITE-DOMAIN evaluation only: the function under analysis inspects its arguments through a handful of
+# comparisons, so its inputs fall into finitely many classes (order types of a few code points, the kinds of a statement,
+# nesting levels up to a stated bound); every class is evaluated once through a representative and the result is compared
+# with a reference the checker computes itself.  The AST of the repository function is interpreted by this class - nothing
+# from the repository is imported, compiled or exec'ed by CPython.  A construct outside the supported fragment raises
+# EvalError (-> ANALYSIS-ERROR or r.info at the caller's choice), never a guess.
+import re as _re
+import functools as _functools
+
+
+class EvalError(Exception):
+    """construct outside the fragment the evaluator models (or step budget exhausted)"""
+
+
+class PyRaise(Exception):
+    """an exception raised by the interpreted program; .exc is a native exception instance or an Obj of an interpreted exception class"""
+
+    def __init__(self, exc):
+        Exception.__init__(self, repr(exc))
+        self.exc = exc
+
+
+class _Ret(Exception):
+    def __init__(self, value):
+        self.value = value
+
+
+class _Brk(Exception):
+    pass
+
+
+class _Cont(Exception):
+    pass
+
+
+class Opaque:
+    """a module-level name whose value the evaluator could not establish; any use is an EvalError"""
+
+    def __init__(self, why):
+        self.why = why
+
+
+class Obj:
+    def __init__(self, cls):
+        self.cls = cls
+        self.attrs = {}
+
+    def __repr__(self):
+        return '<%s object>' % self.cls.name
+
+
+class Cls:
+    def __init__(self, name, bases, module):
+        self.name, self.bases, self.module, self.attrs = name, bases, module, {}
+
+    def mro(self):
+        out = [self]
+        for b in self.bases:
+            if isinstance(b, Cls):
+                for c in b.mro():
+                    if c not in out:
+                        out.append(c)
+        return out
+
+    def native_base(self):
+        for c in self.mro():
+            for b in c.bases:
+                if not isinstance(b, Cls):
+                    return b
+        return None
+
+    def lookup(self, name):
+        for c in self.mro():
+            if name in c.attrs:
+                return c, c.attrs[name]
+        return None, None
+
+    def __repr__(self):
+        return '<class %s>' % self.name
+
+
+class Func:
+    def __init__(self, node, closure, module, owner=None, defaults=(), kwdefaults=None):
+        self.node, self.closure, self.module, self.owner = node, closure, module, owner
+        self.defaults, self.kwdefaults = list(defaults), dict(kwdefaults or {})
+        self.name = getattr(node, 'name', '<lambda>')
+        self.attrs = {}
+
+    def __repr__(self):
+        return '<function %s>' % self.name
+
+
+class Bound:
+    def __init__(self, func, obj):
+        self.func, self.obj = func, obj
+
+
+class Prop:
+    def __init__(self, fget):
+        self.fget = fget
+
+
+class Env:
+    def __init__(self, parent, module):
+        self.vars, self.parent, self.module = {}, parent, module
+        self.nonlocals, self.globals = set(), set()
+
+    def find(self, name):
+        e = self
+        while e is not None:
+            if name in e.vars:
+                return e
+            e = e.parent
+        return None
+
+
+class Mod:
+    def __init__(self, name):
+        self.name, self.vars = name, {}
+
+
+_NATIVE_EXC = {n: getattr(__builtins__, n) if not isinstance(__builtins__, dict) else __builtins__[n] for n in (
+    'Exception', 'KeyError', 'IndexError', 'ValueError', 'TypeError', 'AttributeError', 'StopIteration', 'NotImplementedError',
+    'AssertionError', 'LookupError', 'OSError', 'RuntimeError', 'ZeroDivisionError', 'OverflowError')}
+_PURE_BUILTINS = {'len': len, 'ord': ord, 'chr': chr, 'list': list, 'tuple': tuple, 'set': set, 'frozenset': frozenset, 'dict': dict, 'str': str,
+                  'int': int, 'bool': bool, 'float': float, 'range': range, 'enumerate': enumerate, 'zip': zip, 'repr': repr, 'abs': abs, 'sum': sum,
+                  'any': any, 'all': all, 'reversed': reversed, 'iter': iter, 'divmod': divmod, 'bytes': bytes, 'object': object}
+_METHODS = {
+    str: {'strip', 'lstrip', 'rstrip', 'split', 'rsplit', 'join', 'format', 'replace', 'startswith', 'endswith', 'lower', 'upper', 'find', 'rfind', 'count',
+          'encode', 'isdigit', 'isalpha', 'isalnum', 'isspace', 'splitlines', 'index', 'partition', 'rpartition', 'title', 'zfill'},
+    bytes: {'startswith', 'endswith', 'decode', 'find', 'count'},
+    list: {'append', 'extend', 'insert', 'pop', 'sort', 'reverse', 'index', 'copy', 'count', 'remove', 'clear'},
+    dict: {'get', 'items', 'keys', 'values', 'setdefault', 'pop', 'update', 'copy', 'clear'},
+    set: {'add', 'update', 'union', 'copy', 'discard', 'remove', 'intersection', 'difference', 'issubset', 'issuperset', 'pop', 'clear'},
+    frozenset: {'union', 'copy', 'intersection', 'difference', 'issubset', 'issuperset'},
+    tuple: {'index', 'count'},
+    _re.Match: {'groups', 'group', 'end', 'start', 'span', 'groupdict'},
+    _re.Pattern: {'match', 'search', 'finditer', 'sub', 'fullmatch', 'findall', 'split'},
+}
+_BINOPS = {ast.Add: lambda a, b: a + b, ast.Sub: lambda a, b: a - b, ast.Mult: lambda a, b: a * b, ast.Pow: lambda a, b: a ** b,
+           ast.FloorDiv: lambda a, b: a // b, ast.Div: lambda a, b: a / b, ast.Mod: lambda a, b: a % b, ast.BitAnd: lambda a, b: a & b,
+           ast.BitOr: lambda a, b: a | b, ast.BitXor: lambda a, b: a ^ b, ast.LShift: lambda a, b: a << b, ast.RShift: lambda a, b: a >> b}
+_NATIVE_OK = (int, str, bytes, float, bool, type(None), list, tuple, dict, set, frozenset, range)
+
+
+class PyEval:
+    def __init__(self, max_steps=400000, decorators=None):
+        self.max_steps, self.steps = max_steps, 0
+        self.decorators = decorators or {}      # decorator name -> 'identity' | python callable(Func) -> value
+        self.modules = {}
+
+    # ------------------------------------------------------------------------------------------------------ modules
+    def load_module(self, name, tree, presets=None, imports=None):
+        """interpret the module-level statements of `tree`; names that cannot be established become Opaque"""
+        mod = Mod(name)
+        mod.vars.update(presets or {})
+        self.modules[name] = mod
+        env = Env(None, mod)
+        env.vars = mod.vars
+        self._module_body(tree.body, env, imports or {})
+        return mod
+
+    def _module_body(self, stmts, env, imports):
+        for s in stmts:
+            if isinstance(s, (ast.Import, ast.ImportFrom)):
+                for a in s.names:
+                    nm = a.asname or a.name.split('.')[0]
+                    key = (getattr(s, 'module', None) or '') + ':' + a.name if isinstance(s, ast.ImportFrom) else a.name
+                    if nm in env.vars and not isinstance(env.vars[nm], Opaque):
+                        continue
+                    if key in imports:
+                        env.vars[nm] = imports[key]
+                    elif nm in imports:
+                        env.vars[nm] = imports[nm]
+                    else:
+                        env.vars[nm] = Opaque('import %s' % key)
+                continue
+            if isinstance(s, ast.If):
+                try:
+                    t = self.ev(s.test, env)
+                except (EvalError, PyRaise):
+                    continue
+                self._module_body(s.body if t else s.orelse, env, imports)
+                continue
+            if isinstance(s, ast.Try):
+                self._module_body(s.body, env, imports)
+                continue
+            saved = self.steps
+            try:
+                self.exec_stmt(s, env)
+            except (EvalError, PyRaise) as e:
+                for t in (s.targets if isinstance(s, ast.Assign) else [s.target] if isinstance(s, (ast.AnnAssign, ast.AugAssign)) else []):
+                    for n in ast.walk(t):
+                        if isinstance(n, ast.Name) and n.id not in env.vars:
+                            env.vars[n.id] = Opaque(str(e))
+                if isinstance(s, (ast.FunctionDef, ast.ClassDef)):
+                    env.vars[s.name] = Opaque(str(e))
+            self.steps = saved
+
+    # ------------------------------------------------------------------------------------------------------ calling
+    def wrap(self, f):
+        """a python callable for an interpreted function (for key= / map() callbacks handed to native code)"""
+        if isinstance(f, (Func, Bound, Cls)):
+            return lambda *a, **k: self.call(f, list(a), k)
+        return f
+
+    def call(self, f, args, kwargs=None):
+        kwargs = kwargs or {}
+        if isinstance(f, Opaque):
+            raise EvalError('call of a value the evaluator could not establish (%s)' % f.why)
+        if isinstance(f, Bound):
+            return self.call(f.func, [f.obj] + list(args), kwargs)
+        if isinstance(f, Func):
+            return self._call_func(f, list(args), kwargs)
+        if isinstance(f, Cls):
+            return self._instantiate(f, list(args), kwargs)
+        if callable(f):
+            try:
+                return f(*[self.wrap(a) for a in args], **{k: self.wrap(v) for k, v in kwargs.items()})
+            except (EvalError, PyRaise, _Ret, _Brk, _Cont):
+                raise
+            except Exception as e:      # a native operation of the interpreted program failed: that is the program's exception
+                raise PyRaise(e)
+        raise PyRaise(TypeError('%r is not callable' % (f,)))
+
+    def _instantiate(self, cls, args, kwargs):
+        nb = cls.native_base()
+        if nb is not None and isinstance(nb, type) and issubclass(nb, BaseException):
+            o = Obj(cls)
+            o.attrs['args'] = tuple(args)
+            _, init = cls.lookup('__init__')
+            if isinstance(init, Func):
+                self._call_func(init, [o] + args, kwargs)
+            return o
+        o = Obj(cls)
+        _, init = cls.lookup('__init__')
+        if isinstance(init, Func):
+            self._call_func(init, [o] + args, kwargs)
+        elif args or kwargs:
+            raise PyRaise(TypeError('%s() takes no arguments' % cls.name))
+        return o
+
+    def _call_func(self, f, args, kwargs):
+        node = f.node
+        a = node.args
+        env = Env(f.closure, f.module)
+        env.func = f
+        params = [p.arg for p in a.posonlyargs + a.args]
+        nreq = len(params) - len(f.defaults)
+        if len(args) > len(params) and a.vararg is None:
+            raise PyRaise(TypeError('%s() takes %d positional arguments but %d were given' % (f.name, len(params), len(args))))
+        for i, p in enumerate(params):
+            if i < len(args):
+                env.vars[p] = args[i]
+            elif p in kwargs:
+                env.vars[p] = kwargs.pop(p)
+            elif i >= nreq:
+                env.vars[p] = f.defaults[i - nreq]
+            else:
+                raise PyRaise(TypeError('%s() missing required argument %r' % (f.name, p)))
+        if a.vararg is not None:
+            env.vars[a.vararg.arg] = tuple(args[len(params):])
+        for p in a.kwonlyargs:
+            if p.arg in kwargs:
+                env.vars[p.arg] = kwargs.pop(p.arg)
+            elif p.arg in f.kwdefaults:
+                env.vars[p.arg] = f.kwdefaults[p.arg]
+            else:
+                raise PyRaise(TypeError('%s() missing keyword argument %r' % (f.name, p.arg)))
+        if a.kwarg is not None:
+            env.vars[a.kwarg.arg] = dict(kwargs)
+        elif kwargs:
+            raise PyRaise(TypeError('%s() got an unexpected keyword argument %r' % (f.name, sorted(kwargs)[0])))
+        if isinstance(node, ast.Lambda):
+            return self.ev(node.body, env)
+        if any(isinstance(n, (ast.Yield, ast.YieldFrom)) for n in walk_no_nested(node)):
+            raise EvalError('generator function %s' % f.name)
+        try:
+            self.exec_block(node.body, env)
+        except _Ret as r:
+            return r.value
+        return None
+
+    # ------------------------------------------------------------------------------------------------------ statements
+    def tick(self):
+        self.steps += 1
+        if self.steps > self.max_steps:
+            raise EvalError('step budget of %d exhausted (non-terminating loop?)' % self.max_steps)
+
+    def exec_block(self, stmts, env):
+        for s in stmts:
+            self.exec_stmt(s, env)
+
+    def exec_stmt(self, s, env):
+        self.tick()
+        if isinstance(s, ast.Expr):
+            if not isinstance(s.value, ast.Constant):
+                self.ev(s.value, env)
+        elif isinstance(s, ast.Assign):
+            v = self.ev(s.value, env)
+            for t in s.targets:
+                self.assign(t, v, env)
+        elif isinstance(s, ast.AnnAssign):
+            if s.value is not None:
+                self.assign(s.target, self.ev(s.value, env), env)
+        elif isinstance(s, ast.AugAssign):
+            op = _BINOPS.get(type(s.op))
+            if op is None:
+                raise EvalError('augmented operator %s' % type(s.op).__name__)
+            load = copy_load(s.target)
+            cur = self.ev(load, env)
+            val = self.ev(s.value, env)
+            if isinstance(cur, list) and isinstance(s.op, ast.Add):
+                cur.extend(val)
+                new = cur
+            elif isinstance(cur, set) and isinstance(s.op, ast.BitOr):
+                cur.update(val)
+                new = cur
+            else:
+                new = self.native(op, cur, val)
+            self.assign(s.target, new, env)
+        elif isinstance(s, ast.If):
+            self.exec_block(s.body if self.truth(self.ev(s.test, env)) else s.orelse, env)
+        elif isinstance(s, ast.While):
+            broke = False
+            while self.truth(self.ev(s.test, env)):
+                self.tick()
+                try:
+                    self.exec_block(s.body, env)
+                except _Brk:
+                    broke = True
+                    break
+                except _Cont:
+                    continue
+            if not broke:
+                self.exec_block(s.orelse, env)
+        elif isinstance(s, ast.For):
+            broke = False
+            for item in self.iterate(self.ev(s.iter, env)):
+                self.tick()
+                self.assign(s.target, item, env)
+                try:
+                    self.exec_block(s.body, env)
+                except _Brk:
+                    broke = True
+                    break
+                except _Cont:
+                    continue
+            if not broke:
+                self.exec_block(s.orelse, env)
+        elif isinstance(s, ast.Return):
+            raise _Ret(self.ev(s.value, env) if s.value is not None else None)
+        elif isinstance(s, ast.Break):
+            raise _Brk()
+        elif isinstance(s, ast.Continue):
+            raise _Cont()
+        elif isinstance(s, ast.Pass):
+            pass
+        elif isinstance(s, ast.FunctionDef):
+            env_assign(env, s.name, self.make_function(s, env))
+        elif isinstance(s, ast.ClassDef):
+            env_assign(env, s.name, self.make_class(s, env))
+        elif isinstance(s, ast.Nonlocal):
+            env.nonlocals.update(s.names)
+        elif isinstance(s, ast.Global):
+            env.globals.update(s.names)
+        elif isinstance(s, ast.Assert):
+            if not self.truth(self.ev(s.test, env)):
+                raise PyRaise(AssertionError(node_src(s.test)))
+        elif isinstance(s, ast.Raise):
+            if s.exc is None:
+                cur = getattr(env, 'handling', None)
+                e = env
+                while cur is None and e is not None:
+                    cur = getattr(e, 'handling', None)
+                    e = e.parent
+                if cur is None:
+                    raise PyRaise(RuntimeError('No active exception to reraise'))
+                raise PyRaise(cur)
+            exc = self.ev(s.exc, env)
+            if isinstance(exc, Cls) or (isinstance(exc, type) and issubclass(exc, BaseException)):
+                exc = self.call(exc, [])
+            raise PyRaise(exc)
+        elif isinstance(s, ast.Try):
+            self.exec_try(s, env)
+        elif isinstance(s, ast.Delete):
+            for t in s.targets:
+                if isinstance(t, ast.Subscript):
+                    base = self.ev(t.value, env)
+                    idx = self.ev_slice(t.slice, env)
+                    self.native(lambda b, i: b.__delitem__(i), base, idx)
+                elif isinstance(t, ast.Name):
+                    e = env.find(t.id)
+                    if e is None:
+                        raise PyRaise(NameError(t.id))
+                    del e.vars[t.id]
+                elif isinstance(t, ast.Attribute):
+                    base = self.ev(t.value, env)
+                    if isinstance(base, Obj) and t.attr in base.attrs:
+                        del base.attrs[t.attr]
+                    else:
+                        raise PyRaise(AttributeError(t.attr))
+                else:
+                    raise EvalError('del %s' % node_src(t))
+        elif isinstance(s, ast.With):
+            managers = []
+            for item in s.items:
+                cm = self.ev(item.context_expr, env)
+                v = self.call(self.getattr(cm, '__enter__'), [])
+                managers.append(cm)
+                if item.optional_vars is not None:
+                    self.assign(item.optional_vars, v, env)
+            try:
+                self.exec_block(s.body, env)
+            finally:
+                for cm in reversed(managers):
+                    self.call(self.getattr(cm, '__exit__'), [None, None, None])
+        elif isinstance(s, (ast.Import, ast.ImportFrom)):
+            raise EvalError('import inside interpreted code: %s' % node_src(s))
+        else:
+            raise EvalError('statement %s' % type(s).__name__)
+
+    def exec_try(self, s, env):
+        try:
+            try:
+                self.exec_block(s.body, env)
+            except PyRaise as pr:
+                for h in s.handlers:
+                    if h.type is None or self.exc_matches(pr.exc, self.ev(h.type, env)):
+                        if h.name:
+                            env_assign(env, h.name, pr.exc)
+                        old = getattr(env, 'handling', None)
+                        env.handling = pr.exc
+                        try:
+                            self.exec_block(h.body, env)
+                        finally:
+                            env.handling = old
+                        break
+                else:
+                    raise
+            else:
+                self.exec_block(s.orelse, env)
+        finally:
+            if s.finalbody:
+                self.exec_block(s.finalbody, env)
+
+    def exc_matches(self, exc, spec):
+        if isinstance(spec, tuple):
+            return any(self.exc_matches(exc, x) for x in spec)
+        if isinstance(spec, Cls):
+            return isinstance(exc, Obj) and spec in exc.cls.mro()
+        if isinstance(spec, type):
+            if isinstance(exc, Obj):
+                nb = exc.cls.native_base()
+                return nb is not None and issubclass(nb, spec)
+            return isinstance(exc, spec)
+        raise EvalError('except clause type %r' % (spec,))
+
+    def assign(self, t, v, env):
+        if isinstance(t, ast.Name):
+            env_assign(env, t.id, v)
+        elif isinstance(t, (ast.Tuple, ast.List)):
+            vals = list(self.iterate(v))
+            star = [i for i, e in enumerate(t.elts) if isinstance(e, ast.Starred)]
+            if star:
+                i = star[0]
+                after = len(t.elts) - i - 1
+                if len(vals) < len(t.elts) - 1:
+                    raise PyRaise(ValueError('not enough values to unpack'))
+                parts = vals[:i] + [vals[i:len(vals) - after]] + vals[len(vals) - after:]
+                for e, x in zip(t.elts, parts):
+                    self.assign(e.value if isinstance(e, ast.Starred) else e, x, env)
+            else:
+                if len(vals) != len(t.elts):
+                    raise PyRaise(ValueError('cannot unpack %d values into %d targets' % (len(vals), len(t.elts))))
+                for e, x in zip(t.elts, vals):
+                    self.assign(e, x, env)
+        elif isinstance(t, ast.Attribute):
+            base = self.ev(t.value, env)
+            if isinstance(base, Obj):
+                base.attrs[t.attr] = v
+            elif isinstance(base, (Cls, Func)):
+                base.attrs[t.attr] = v
+            elif isinstance(base, Mod):
+                base.vars[t.attr] = v
+            elif isinstance(base, NS):
+                setattr(base, t.attr, v)
+            else:
+                raise EvalError('attribute store on %r' % type(base).__name__)
+        elif isinstance(t, ast.Subscript):
+            base = self.ev(t.value, env)
+            idx = self.ev_slice(t.slice, env)
+            if not isinstance(base, (list, dict)):
+                raise EvalError('item store on %r' % type(base).__name__)
+            self.native(lambda b, i, x: b.__setitem__(i, x), base, idx, v)
+        else:
+            raise EvalError('assignment target %s' % type(t).__name__)
+
+    # ------------------------------------------------------------------------------------------------------ definitions
+    def make_function(self, node, env, owner=None):
+        for d in getattr(node, 'decorator_list', []):
+            dn = ast.unparse(d.func if isinstance(d, ast.Call) else d)
+            if dn.startswith('cython.') or self.decorators.get(dn) == 'identity':
+                continue
+            if dn in ('property', 'staticmethod', 'classmethod') or dn in self.decorators:
+                continue
+            raise EvalError('decorator @%s on %s' % (dn, node.name))
+        a = node.args
+        defaults = [self.ev(d, env) for d in a.defaults]
+        kwd = {p.arg: self.ev(d, env) for p, d in zip(a.kwonlyargs, a.kw_defaults) if d is not None}
+        f = Func(node, env if env.parent is not None or env.vars is not env.module.vars else None, env.module, owner, defaults, kwd)
+        for d in reversed(getattr(node, 'decorator_list', [])):
+            dn = ast.unparse(d.func if isinstance(d, ast.Call) else d)
+            if dn == 'property':
+                return Prop(f)
+            if dn == 'staticmethod':
+                f.static = True
+            elif dn in self.decorators and self.decorators[dn] != 'identity':
+                dec = self.decorators[dn]
+                if isinstance(dec, (Func, Bound)):
+                    return self.call(dec, [f])
+                return dec(f)
+        return f
+
+    def make_class(self, node, env):
+        bases = []
+        for b in node.bases:
+            v = self.ev(b, env)
+            if isinstance(v, Opaque):
+                raise EvalError('base class of %s: %s' % (node.name, v.why))
+            bases.append(v)
+        c = Cls(node.name, bases, env.module)
+        cenv = Env(env, env.module)
+        for s in node.body:
+            if isinstance(s, ast.FunctionDef):
+                try:
+                    c.attrs[s.name] = self.make_function(s, env, owner=c)
+                except EvalError as e:
+                    c.attrs[s.name] = Opaque(str(e))
+                if isinstance(c.attrs[s.name], Func):
+                    c.attrs[s.name].owner = c
+                elif isinstance(c.attrs[s.name], Prop):
+                    c.attrs[s.name].fget.owner = c
+            elif isinstance(s, (ast.Assign, ast.AnnAssign)):
+                try:
+                    self.exec_stmt(s, cenv)
+                except (EvalError, PyRaise) as e:
+                    for t in (s.targets if isinstance(s, ast.Assign) else [s.target]):
+                        if isinstance(t, ast.Name):
+                            cenv.vars[t.id] = Opaque(str(e))
+            elif isinstance(s, (ast.Expr, ast.Pass)):
+                continue
+            else:
+                raise EvalError('class body statement %s in %s' % (type(s).__name__, node.name))
+        c.attrs.update(cenv.vars)
+        return c
+
+    # ------------------------------------------------------------------------------------------------------ expressions
+    def truth(self, v):
+        if isinstance(v, Opaque):
+            raise EvalError('truth value of a value the evaluator could not establish (%s)' % v.why)
+        if isinstance(v, Obj):
+            _, f = v.cls.lookup('__bool__')
+            if isinstance(f, Func):
+                return bool(self.call(f, [v]))
+            _, f = v.cls.lookup('__len__')
+            if isinstance(f, Func):
+                return bool(self.call(f, [v]))
+            return True
+        return bool(v)
+
+    def native(self, f, *args):
+        try:
+            return f(*args)
+        except (EvalError, PyRaise, _Ret, _Brk, _Cont):
+            raise
+        except Exception as e:
+            raise PyRaise(e)
+
+    def iterate(self, v):
+        if isinstance(v, Opaque):
+            raise EvalError('iteration over a value the evaluator could not establish (%s)' % v.why)
+        if isinstance(v, (Obj, Cls, Func, Mod)):
+            raise EvalError('iteration over %r' % (v,))
+        try:
+            return iter(v)
+        except TypeError as e:
+            raise PyRaise(e)
+
+    def ev_slice(self, sl, env):
+        if isinstance(sl, ast.Slice):
+            return slice(self.ev(sl.lower, env) if sl.lower is not None else None, self.ev(sl.upper, env) if sl.upper is not None else None,
+                         self.ev(sl.step, env) if sl.step is not None else None)
+        return self.ev(sl, env)
+
+    def lookup(self, name, env):
+        e = env.find(name)
+        if e is not None:
+            v = e.vars[name]
+        elif name in env.module.vars:
+            v = env.module.vars[name]
+        elif name in _PURE_BUILTINS:
+            return _PURE_BUILTINS[name]
+        elif name in _NATIVE_EXC:
+            return _NATIVE_EXC[name]
+        elif name in ('isinstance', 'type', 'getattr', 'setattr', 'hasattr', 'sorted', 'min', 'max', 'map', 'filter', 'next', 'id', 'print', 'super', 'callable', 'issubclass', 'hash'):
+            return ('builtin', name)
+        else:
+            raise PyRaise(NameError(name))
+        return v
+
+    def getattr(self, base, attr):
+        if isinstance(base, Opaque):
+            raise EvalError('attribute %s of a value the evaluator could not establish (%s)' % (attr, base.why))
+        if isinstance(base, tuple) and len(base) == 3 and base[0] == 'super':
+            _, owner, obj = base
+            mro = obj.cls.mro() if isinstance(obj, Obj) else owner.mro()
+            for c in mro[mro.index(owner) + 1:] if owner in mro else []:
+                if attr in c.attrs:
+                    v = c.attrs[attr]
+                    return Bound(v, obj) if isinstance(v, Func) else v
+            if attr == '__init__':
+                return lambda *a, **k: None
+            raise PyRaise(AttributeError('super object has no attribute %r' % attr))
+        if isinstance(base, Obj):
+            if attr in base.attrs:
+                return base.attrs[attr]
+            if attr == '__class__':
+                return base.cls
+            _, v = base.cls.lookup(attr)
+            if v is None and attr not in [k for c in base.cls.mro() for k in c.attrs]:
+                raise PyRaise(AttributeError('%s object has no attribute %r' % (base.cls.name, attr)))
+            if isinstance(v, Func):
+                return v if getattr(v, 'static', False) else Bound(v, base)
+            if isinstance(v, Prop):
+                return self.call(v.fget, [base])
+            return v
+        if isinstance(base, Cls):
+            if attr in ('__name__', '__qualname__'):
+                return base.name
+            _, v = base.lookup(attr)
+            if v is None and attr not in [k for c in base.mro() for k in c.attrs]:
+                raise PyRaise(AttributeError('class %s has no attribute %r' % (base.name, attr)))
+            return v
+        if isinstance(base, Func):
+            if attr in ('__name__', '__qualname__'):
+                return base.name
+            if attr in base.attrs:
+                return base.attrs[attr]
+            raise PyRaise(AttributeError(attr))
+        if isinstance(base, Bound):
+            return self.getattr(base.func, attr)
+        if isinstance(base, Mod):
+            if attr in base.vars:
+                return base.vars[attr]
+            raise PyRaise(AttributeError('module %s has no attribute %r' % (base.name, attr)))
+        if isinstance(base, NS):
+            if hasattr(base, attr):
+                return getattr(base, attr)
+            raise PyRaise(AttributeError(attr))
+        for t, names in _METHODS.items():
+            if isinstance(base, t) and not isinstance(base, bool) and attr in names:
+                return getattr(base, attr)
+        if isinstance(base, type) and base in _METHODS and attr in _METHODS[base]:
+            return getattr(base, attr)          # unbound method of a builtin type, e.g. set.union handed around as a merge function
+        if isinstance(base, BaseException) and attr == 'args':
+            return base.args
+        raise EvalError('attribute %r of a %s value' % (attr, type(base).__name__))
+
+    def ev(self, n, env):
+        self.tick()
+        if isinstance(n, ast.Constant):
+            return n.value
+        if isinstance(n, ast.Name):
+            v = self.lookup(n.id, env)
+            return v
+        if isinstance(n, ast.Attribute):
+            return self.getattr(self.ev(n.value, env), n.attr)
+        if isinstance(n, ast.BinOp):
+            op = _BINOPS.get(type(n.op))
+            if op is None:
+                raise EvalError('operator %s' % type(n.op).__name__)
+            a, b = self.ev(n.left, env), self.ev(n.right, env)
+            self.need_native(a, n.left)
+            self.need_native(b, n.right)
+            return self.native(op, a, b)
+        if isinstance(n, ast.UnaryOp):
+            v = self.ev(n.operand, env)
+            if isinstance(n.op, ast.Not):
+                return not self.truth(v)
+            self.need_native(v, n.operand)
+            if isinstance(n.op, ast.USub):
+                return self.native(lambda x: -x, v)
+            if isinstance(n.op, ast.Invert):
+                return self.native(lambda x: ~x, v)
+            if isinstance(n.op, ast.UAdd):
+                return self.native(lambda x: +x, v)
+        if isinstance(n, ast.BoolOp):
+            is_and = isinstance(n.op, ast.And)
+            v = None
+            for x in n.values:
+                v = self.ev(x, env)
+                if self.truth(v) != is_and:
+                    return v
+            return v
+        if isinstance(n, ast.Compare):
+            left = self.ev(n.left, env)
+            for op, c in zip(n.ops, n.comparators):
+                right = self.ev(c, env)
+                if not self.compare(op, left, right):
+                    return False
+                left = right
+            return True
+        if isinstance(n, ast.IfExp):
+            return self.ev(n.body if self.truth(self.ev(n.test, env)) else n.orelse, env)
+        if isinstance(n, ast.Tuple):
+            return tuple(self.ev_elts(n.elts, env))
+        if isinstance(n, ast.List):
+            return self.ev_elts(n.elts, env)
+        if isinstance(n, ast.Set):
+            return set(self.ev_elts(n.elts, env))
+        if isinstance(n, ast.Dict):
+            d = {}
+            for k, v in zip(n.keys, n.values):
+                if k is None:
+                    d.update(self.ev(v, env))
+                else:
+                    d[self.ev(k, env)] = self.ev(v, env)
+            return d
+        if isinstance(n, ast.Subscript):
+            base = self.ev(n.value, env)
+            idx = self.ev_slice(n.slice, env)
+            if isinstance(base, Opaque):
+                raise EvalError('subscript of a value the evaluator could not establish (%s)' % base.why)
+            if isinstance(base, Obj):
+                _, f = base.cls.lookup('__getitem__')
+                if isinstance(f, Func):
+                    return self.call(f, [base, idx])
+                raise PyRaise(TypeError('%s object is not subscriptable' % base.cls.name))
+            if isinstance(base, _re.Match):
+                return self.native(lambda b, i: b[i], base, idx)
+            if not isinstance(base, _NATIVE_OK):
+                raise EvalError('subscript of a %s value' % type(base).__name__)
+            return self.native(lambda b, i: b[i], base, idx)
+        if isinstance(n, ast.Call):
+            return self.ev_call(n, env)
+        if isinstance(n, (ast.ListComp, ast.SetComp, ast.GeneratorExp, ast.DictComp)):
+            out = []
+            self.comp(n, 0, Env(env, env.module), out)
+            if isinstance(n, ast.SetComp):
+                return set(out)
+            if isinstance(n, ast.DictComp):
+                return dict(out)
+            return out      # a generator expression is materialised: its consumers here only iterate once
+        if isinstance(n, ast.JoinedStr):
+            out = ''
+            for v in n.values:
+                if isinstance(v, ast.Constant):
+                    out += v.value
+                else:
+                    x = self.ev(v.value, env)
+                    if v.conversion == 114:
+                        x = repr(x)
+                    elif v.conversion == 115:
+                        x = str(x)
+                    spec = self.ev(v.format_spec, env) if v.format_spec is not None else ''
+                    self.need_native(x, v.value)
+                    out += self.native(format, x, spec)
+            return out
+        if isinstance(n, ast.Lambda):
+            a = n.args
+            return Func(n, env, env.module, None, [self.ev(d, env) for d in a.defaults], {})
+        if isinstance(n, ast.Starred):
+            raise EvalError('starred expression outside a call')
+        if isinstance(n, ast.NamedExpr):
+            v = self.ev(n.value, env)
+            self.assign(n.target, v, env)
+            return v
+        raise EvalError('expression %s' % type(n).__name__)
+
+    def need_native(self, v, node):
+        if isinstance(v, Opaque):
+            raise EvalError('%s: value the evaluator could not establish (%s)' % (node_src(node, 40), v.why))
+        if isinstance(v, (Obj, Cls, Func, Bound, Mod)):
+            raise EvalError('arithmetic on interpreted object %r' % (v,))
+
+    def ev_elts(self, elts, env):
+        out = []
+        for e in elts:
+            if isinstance(e, ast.Starred):
+                out.extend(self.iterate(self.ev(e.value, env)))
+            else:
+                out.append(self.ev(e, env))
+        return out
+
+    def comp(self, n, gi, env, out):
+        if gi == len(n.generators):
+            if isinstance(n, ast.DictComp):
+                out.append((self.ev(n.key, env), self.ev(n.value, env)))
+            else:
+                out.append(self.ev(n.elt, env))
+            return
+        g = n.generators[gi]
+        for item in self.iterate(self.ev(g.iter, env)):
+            self.tick()
+            self.assign(g.target, item, env)
+            if all(self.truth(self.ev(c, env)) for c in g.ifs):
+                self.comp(n, gi + 1, env, out)
+
+    def compare(self, op, a, b):
+        if isinstance(a, Opaque) or isinstance(b, Opaque):
+            raise EvalError('comparison with a value the evaluator could not establish')
+        if isinstance(op, ast.Is):
+            return a is b
+        if isinstance(op, ast.IsNot):
+            return a is not b
+        if isinstance(op, (ast.In, ast.NotIn)):
+            if isinstance(b, Obj):
+                _, f = b.cls.lookup('__contains__')
+                if not isinstance(f, Func):
+                    raise PyRaise(TypeError('argument of type %s is not iterable' % b.cls.name))
+                r = self.truth(self.call(f, [b, a]))
+            else:
+                r = self.native(lambda x, y: x in y, a, b)
+            return r if isinstance(op, ast.In) else not r
+        for x, y, names in ((a, b, {ast.Lt: '__lt__', ast.Gt: '__gt__', ast.LtE: '__le__', ast.GtE: '__ge__', ast.Eq: '__eq__', ast.NotEq: '__ne__'}),):
+            if isinstance(x, Obj) or isinstance(y, Obj):
+                nm = names[type(op)]
+                if isinstance(x, Obj):
+                    _, f = x.cls.lookup(nm)
+                    if isinstance(f, Func):
+                        return self.truth(self.call(f, [x, y]))
+                refl = {'__lt__': '__gt__', '__gt__': '__lt__', '__le__': '__ge__', '__ge__': '__le__', '__eq__': '__eq__', '__ne__': '__ne__'}[nm]
+                if isinstance(y, Obj):
+                    _, f = y.cls.lookup(refl)
+                    if isinstance(f, Func):
+                        return self.truth(self.call(f, [y, x]))
+                if isinstance(op, ast.Eq):
+                    return x is y
+                if isinstance(op, ast.NotEq):
+                    return x is not y
+                raise PyRaise(TypeError('ordering not supported between interpreted objects'))
+        f = {ast.Eq: lambda p, q: p == q, ast.NotEq: lambda p, q: p != q, ast.Lt: lambda p, q: p < q, ast.LtE: lambda p, q: p <= q,
+             ast.Gt: lambda p, q: p > q, ast.GtE: lambda p, q: p >= q}[type(op)]
+        return self.native(f, a, b)
+
+    def _cmp_key(self):
+        def cmp(a, b):
+            if self.compare(ast.Lt(), a, b):
+                return -1
+            if self.compare(ast.Lt(), b, a):
+                return 1
+            return 0
+        return _functools.cmp_to_key(cmp)
+
+    def ev_call(self, n, env):
+        # super() / super().m(...)
+        f = self.ev(n.func, env)
+        args = self.ev_elts(n.args, env)
+        kwargs = {}
+        for k in n.keywords:
+            if k.arg is None:
+                kwargs.update(self.ev(k.value, env))
+            else:
+                kwargs[k.arg] = self.ev(k.value, env)
+        if isinstance(f, tuple) and len(f) == 2 and f[0] == 'builtin':
+            return self.builtin(f[1], args, kwargs, env)
+        return self.call(f, args, kwargs)
+
+    def builtin(self, name, args, kwargs, env):
+        if name == 'isinstance' or name == 'issubclass':
+            x, spec = args
+            specs = spec if isinstance(spec, tuple) else (spec,)
+            for s in specs:
+                if isinstance(s, Cls):
+                    c = x.cls if (name == 'isinstance' and isinstance(x, Obj)) else x if isinstance(x, Cls) else None
+                    if c is not None and s in c.mro():
+                        return True
+                elif isinstance(s, type):
+                    if name == 'isinstance':
+                        if isinstance(x, Obj):
+                            nb = x.cls.native_base()
+                            if nb is not None and issubclass(nb, s):
+                                return True
+                            if s is object:
+                                return True
+                        elif isinstance(x, (Cls, Func, Bound, Mod, Opaque)):
+                            if s is object:
+                                return True
+                        elif isinstance(x, s):
+                            return True
+                    elif isinstance(x, type) and issubclass(x, s):
+                        return True
+                else:
+                    raise EvalError('isinstance() against %r' % (s,))
+            return False
+        if name == 'type':
+            (x,) = args
+            if isinstance(x, Obj):
+                return x.cls
+            if isinstance(x, (Cls, Func, Bound, Mod, Opaque)):
+                raise EvalError('type() of an interpreted %s' % type(x).__name__)
+            return type(x)
+        if name == 'getattr':
+            try:
+                return self.getattr(args[0], args[1])
+            except PyRaise as e:
+                if len(args) > 2 and isinstance(e.exc, AttributeError):
+                    return args[2]
+                raise
+        if name == 'hasattr':
+            try:
+                self.getattr(args[0], args[1])
+                return True
+            except PyRaise as e:
+                if isinstance(e.exc, AttributeError):
+                    return False
+                raise
+        if name == 'setattr':
+            o, a, v = args
+            if isinstance(o, (Obj, Cls, Func)):
+                o.attrs[a] = v
+            elif isinstance(o, NS):
+                setattr(o, a, v)
+            else:
+                raise EvalError('setattr on %r' % type(o).__name__)
+            return None
+        if name in ('sorted', 'min', 'max'):
+            seq = list(self.iterate(args[0])) if len(args) == 1 else list(args)
+            key = kwargs.get('key')
+            if key is not None:
+                kf = self.wrap(key)
+            elif any(isinstance(x, Obj) for x in seq):
+                kf = self._cmp_key()
+            else:
+                kf = None
+            if name == 'sorted':
+                return self.native(lambda: sorted(seq, key=kf, reverse=bool(kwargs.get('reverse', False))))
+            if not seq and 'default' in kwargs:
+                return kwargs['default']
+            return self.native(lambda: (min if name == 'min' else max)(seq, key=kf) if kf else (min if name == 'min' else max)(seq))
+        if name == 'map':
+            f = self.wrap(args[0])
+            return [self.native(f, *xs) for xs in zip(*[list(self.iterate(a)) for a in args[1:]])]
+        if name == 'filter':
+            f = self.wrap(args[0]) if args[0] is not None else (lambda x: x)
+            return [x for x in self.iterate(args[1]) if self.truth(f(x))]
+        if name == 'next':
+            try:
+                return next(args[0])
+            except StopIteration as e:
+                if len(args) > 1:
+                    return args[1]
+                raise PyRaise(e)
+        if name == 'id':
+            return id(args[0])
+        if name == 'hash':
+            return self.native(hash, args[0])
+        if name == 'print':
+            return None
+        if name == 'callable':
+            return isinstance(args[0], (Func, Bound, Cls)) or callable(args[0])
+        if name == 'super':
+            f = getattr(env, 'func', None)
+            e = env
+            while f is None and e is not None:
+                f = getattr(e, 'func', None)
+                e = e.parent
+            if f is None or f.owner is None:
+                raise EvalError('super() outside a method')
+            selfname = f.node.args.args[0].arg
+            return ('super', f.owner, self.lookup(selfname, env))
+        raise EvalError('builtin %s' % name)
+
+
+def copy_load(t):
+    import copy
+    t2 = copy.deepcopy(t)
+    for n in ast.walk(t2):
+        if hasattr(n, 'ctx'):
+            n.ctx = ast.Load()
+    return t2
+
+
+def env_assign(env, name, v):
+    if name in env.globals:
+        env.module.vars[name] = v
+        return
+    if name in env.nonlocals:
+        e = env.parent.find(name) if env.parent is not None else None
+        if e is None:
+            raise EvalError('nonlocal %s not found' % name)
+        e.vars[name] = v
+        return
+    env.vars[name] = v
+
+
+# ======================================================================================================================
+#  rules built on PyEval (fourth round)
+# ======================================================================================================================
+class PlexModel:
+    """the Plex modules loaded into one PyEval instance (Errors, Transitions, Machines, Regexps, Actions, DFA, Lexicons)"""
+
+    ORDER = ('Errors', 'Transitions', 'Machines', 'Regexps', 'Actions', 'DFA', 'Lexicons')
+
+    def __init__(self, px):
+        self.px = px
+        self.ev = PyEval(max_steps=3000000)
+        self.mods = {}
+        imports = {'cython': NS(compiled=False), 'types': NS()}
+        for name in self.ORDER:
+            tree = px.trees.get(name) or px.ctx.parse(PLEX + name + '.py')
+            m = self.ev.load_module(name, tree, imports=imports)
+            self.mods[name] = m
+            imports[':' + name] = m
+            imports[name] = m
+            for k, v in m.vars.items():
+                imports['%s:%s' % (name, k)] = v
+                imports['Cython.Plex.%s:%s' % (name, k)] = v
+
+    def get(self, mod, name):
+        v = self.mods[mod].vars.get(name)
+        if v is None or isinstance(v, Opaque):
+            raise AnalysisError('Plex model: %s.%s could not be established by the evaluator%s' % (mod, name, (' (%s)' % v.why) if isinstance(v, Opaque) else ''))
+        return v
+
+    def call(self, mod, name, *args, **kw):
+        return self.ev.call(self.get(mod, name), list(args), kw)
+
+    def method(self, obj, name, *args, **kw):
+        return self.ev.call(self.ev.getattr(obj, name), list(args), kw)
+
+
+def _guard(desc, thunk):
+    """run a PyEval computation; an unmodelled construct is an ANALYSIS-ERROR, an exception of the interpreted program is returned"""
+    try:
+        return thunk()
+    except EvalError as e:
+        raise AnalysisError('%s: outside the fragment the evaluator models (%s)' % (desc, e))
+    except RecursionError:
+        raise AnalysisError('%s: recursion too deep for the evaluator' % desc)
+
+
+def norm_intervals(iv):
+    """sorted union of half-open integer intervals"""
+    out = []
+    for lo, hi in sorted((a, b) for a, b in iv if a < b):
+        if out and lo <= out[-1][1]:
+            out[-1] = (out[-1][0], max(out[-1][1], hi))
+        else:
+            out.append((lo, hi))
+    return out
+
+
+def codes_to_intervals(codes):
+    return norm_intervals([(c, c + 1) for c in codes])
+
+
+def show_iv(iv, maxint):
+    def c(x):
+        if x <= -maxint:
+            return '-inf'
+        if x >= maxint:
+            return '+inf'
+        return repr(chr(x)) if 32 <= x < 127 else str(x)
+    return '{' + ', '.join(('%s' % c(a)) if b == a + 1 else '%s..%s' % (c(a), c(b - 1) if b < maxint else '+inf') for a, b in iv) + '}'
+
+
+def tmap_segments(tm):
+    """[(lo, hi, set)] of an interpreted TransitionMap, checking the documented representation"""
+    m = tm.attrs.get('map')
+    if not isinstance(m, list) or len(m) < 3 or len(m) % 2 != 1:
+        raise AnalysisError('TransitionMap.map is not the documented [code, set, code, ..., code] list: %r' % (m,))
+    return [(m[i], m[i + 2], m[i + 1]) for i in range(0, len(m) - 1, 2)]
+
+
+def single_char_language(pm, re_obj, nocase=0):
+    """the set of characters (as intervals of codes) the NFA built for `re_obj` accepts as a complete one-character input.
+    A newline reaches the automaton as the pair EOL, '\\n' (that is how the scanner feeds it)."""
+    ev = pm.ev
+    m = pm.call('Machines', 'Machine')
+    s0, s1 = pm.method(m, 'new_state'), pm.method(m, 'new_state')
+    pm.method(re_obj, 'build_machine', m, s0, s1, 0, nocase)
+    EOL = pm.get('Regexps', 'EOL')
+    nl = pm.get('Regexps', 'nl_code')
+
+    def closure(states):
+        seen, todo = [], list(states)
+        while todo:
+            s = todo.pop()
+            if any(s is x for x in seen):
+                continue
+            seen.append(s)
+            sp = s.attrs['transitions'].attrs.get('special')
+            todo.extend(sp.get('', ()) if isinstance(sp, dict) else ())
+        return seen
+    start = closure([s0])
+    out = []
+    for s in start:
+        for lo, hi, targets in tmap_segments(s.attrs['transitions']):
+            if targets and any(t is s1 for t in closure(targets)):
+                # a raw transition on the newline code cannot fire as the first symbol: the scanner delivers EOL before '\n'
+                if lo <= nl < hi:
+                    out += [(lo, nl), (nl + 1, hi)]
+                else:
+                    out.append((lo, hi))
+    after_eol = closure([t for s in start for t in s.attrs['transitions'].attrs['special'].get(EOL, ())])
+    for s in after_eol:
+        for lo, hi, targets in tmap_segments(s.attrs['transitions']):
+            if lo <= nl < hi and targets and any(t is s1 for t in closure(targets)):
+                out.append((nl, nl + 1))
+    return norm_intervals(out)
+
+
+CASE_RANGES = [('a', 'a'), ('z', 'z'), ('A', 'A'), ('Z', 'Z'), ('`', 'b'), ('y', '{'), ('@', 'B'), ('Y', '['), ('0', '9'), ('X', 'b'), ('b', 'y'), ('B', 'Y')]
+NL_PAIRS = [('\t', '\t'), ('\t', '\n'), ('\t', '\x0b'), ('\n', '\n'), ('\n', '\x0b'), ('\x0b', '\x0c'), ('a', 'c'), ('a', 'a'), ('\x08', '\x0c')]
+
+
+def delta_strings(deltas, maxlen=4, base=ord('b')):
+    """strings whose sorted code sequence realises every sequence of the given consecutive differences (length <= maxlen), in both
+    sorted and reversed order of writing"""
+    out = []
+
+    def rec(codes):
+        if codes:
+            s = ''.join(chr(c) for c in codes)
+            out.append(s)
+            if len(codes) > 1:
+                out.append(s[::-1])
+        if len(codes) < maxlen:
+            for d in deltas:
+                rec(codes + [codes[-1] + d] if codes else [base])
+                if not codes:
+                    break
+    rec([])
+    return sorted(set(out), key=lambda s: (len(s), s))
+
+
+def charset_cases(pm, deltas):
+    """[(key, description, thunk -> RE object, expected intervals, nocase)]"""
+    maxint = pm.get('Regexps', 'maxint')
+    cases = []
+    for c in ('a', '\t', '\n', '\x0b', 'z'):
+        cases.append(('Char(%r)' % c, lambda c=c: pm.call('Regexps', 'Char', c), [(ord(c), ord(c) + 1)], 0))
+    for a, b in NL_PAIRS:
+        cases.append(('Range(%r,%r)' % (a, b), lambda a=a, b=b: pm.call('Regexps', 'Range', a, b), [(ord(a), ord(b) + 1)], 0))
+    for s in ('ac', 'acxz', 'abbc', '\t\n', '\n\x0bxz'):
+        cases.append(('Range(%r)' % s, lambda s=s: pm.call('Regexps', 'Range', s),
+                      norm_intervals([(ord(s[i]), ord(s[i + 1]) + 1) for i in range(0, len(s), 2)]), 0))
+    for s in delta_strings(deltas):
+        cases.append(('Any(%r)' % s, lambda s=s: pm.call('Regexps', 'Any', s), codes_to_intervals({ord(ch) for ch in s}), 0))
+    for s in ('\n', 'a\n', '\t\n\x0b'):
+        cases.append(('Any(%r)' % s, lambda s=s: pm.call('Regexps', 'Any', s), codes_to_intervals({ord(ch) for ch in s}), 0))
+    for s in ('', 'a', 'ab', 'ac', '\n', 'a\n'):
+        holes = codes_to_intervals({ord(ch) for ch in s})
+        exp, lo = [], -maxint
+        for a, b in holes:
+            exp.append((lo, a))
+            lo = b
+        exp.append((lo, maxint))
+        cases.append(('AnyBut(%r)' % s, lambda s=s: pm.call('Regexps', 'AnyBut', s), norm_intervals(exp), 0))
+    for a, b in CASE_RANGES:
+        codes = set(range(ord(a), ord(b) + 1))
+        folded = set(codes)
+        for c in codes:
+            ch = chr(c)
+            if 'a' <= ch <= 'z' or 'A' <= ch <= 'Z':
+                folded.add(ord(ch.swapcase()))
+        cases.append(('nocase:Range(%r,%r)' % (a, b), lambda a=a, b=b: pm.call('Regexps', 'Range', a, b), codes_to_intervals(folded), 1))
+    cases.append(("NoCase(Char('a'))", lambda: pm.call('Regexps', 'NoCase', pm.call('Regexps', 'Char', 'a')), codes_to_intervals({97, 65}), 0))
+    cases.append(("nocase:Case(Char('a'))", lambda: pm.call('Regexps', 'Case', pm.call('Regexps', 'Char', 'a')), codes_to_intervals({97}), 1))
+    cases.append(("nocase:NoCase(Char('Q'))", lambda: pm.call('Regexps', 'NoCase', pm.call('Regexps', 'Char', 'Q')), codes_to_intervals({81, 113}), 1))
+    return cases, maxint
+
+
+def _charset_rule(px, rid, desc, deltas, floor, only_any=False):
+    r = Rule(rid, desc, floor=floor)
+    pm = px.model()
+    cases, maxint = charset_cases(pm, deltas)
+    rel = px.rel('Regexps')
+    first = {}
+    for key, thunk, want, nocase in cases:
+        if only_any and not key.startswith('Any('):
+            continue
+        ctor = key.split('(')[0]
+        try:
+            got = _guard(key, lambda: single_char_language(pm, thunk(), nocase))
+        except PyRaise as e:
+            got = 'raises %r' % (e.exc,)
+        r.inst('charset:' + key, sample='%s accepts %s' % (key, show_iv(got, maxint) if isinstance(got, list) else got))
+        if got != want and ctor not in first:
+            first[ctor] = True
+            line = getattr(px.func('Regexps', ctor.split(':')[-1]) if ctor.split(':')[-1] in ('Char', 'Range', 'Any', 'AnyBut', 'NoCase', 'Case') else None, 'lineno', 1)
+            if isinstance(got, list):
+                extra = norm_intervals([(max(a, c), min(b, d)) for a, b in got for c, d in _complement(want, maxint)])
+                missing = norm_intervals([(max(a, c), min(b, d)) for a, b in want for c, d in _complement(got, maxint)])
+                detail = 'accepts %s, the documented set is %s%s%s' % (show_iv(got, maxint), show_iv(want, maxint),
+                                                                       ('; wrongly accepted: %s' % show_iv(extra, maxint)) if extra else '',
+                                                                       ('; not accepted: %s' % show_iv(missing, maxint)) if missing else '')
+            else:
+                detail = got
+            r.violate('Regexps.%s:charset' % ctor, rel, line,
+                      'the automaton built for %s%s %s: the scanner matches other characters than the lexicon specifies (evaluated on the NFA the constructors build, '
+                      'nothing is run)' % (key.split(':')[-1], ' under nocase' if nocase else '', detail))
+    return r
+
+
+def _complement(iv, maxint):
+    out, lo = [], -maxint
+    for a, b in norm_intervals(iv):
+        if lo < a:
+            out.append((lo, a))
+        lo = max(lo, b)
+    if lo < maxint:
+        out.append((lo, maxint))
+    return out
+
+
+def rule_charset(px):
+    r = _charset_rule(px, 'C50-CHARSET',
+                      'the single-character constructors denote their documented sets: Char(c) = {c}; Range(a, b) = [a, b] inclusive (pair and string form); Any(s) = set(s); '
+                      'AnyBut(s) = complement of set(s); under nocase every letter brings its other-case twin; NoCase/Case override the enclosing flag - read off the NFA that '
+                      'build_machine constructs (evaluated by the checker over the order types of the end points relative to newline, a/z/A/Z and each other)', (1, 2, 3), floor=90)
+    # positive control: a range constructor with an exclusive upper end is told apart from the inclusive Range('a', 'c')
+    pm = px.model()
+    excl = _guard('CodeRange', lambda: single_char_language(pm, pm.call('Regexps', 'CodeRange', 97, 99)))
+    incl = [c for c in charset_cases(pm, (1,))[0] if c[0] == "Range('a','c')"][0]
+    r.positive_control(incl[2] == [(97, 100)] and excl != incl[2], 'range with an exclusive upper end')
+    return r
+
+
+def rule_charset_duplicates(px):      # pending finding (FINDING_1): reports Regexps.Any:charset on the unmodified tree
+    return _charset_rule(px, 'C50-CHARSET-DUP', 'Any(s) = set(s) also when s repeats a character', (0, 1, 2), floor=20, only_any=True)
+
+
+# ---------------------------------------------------------------------------------------------------------------- TMAP
+def tmap_compare(segs, items, seq, probes, maxint):
+    """compare a transition map (its segments and what iteritems() reports) with the reference model of the add sequence -> [(kind, message)]"""
+    out = []
+    codes = [s[0] for s in segs] + [segs[-1][1]]
+    if codes[0] != -maxint or codes[-1] != maxint or any(a >= b for a, b in zip(codes, codes[1:])):
+        return [('invariant', 'the code list is %s (must increase strictly from -maxint to +maxint)' % codes)]
+    for p in probes:
+        want = {'S%d' % k for k, (a, b) in enumerate(seq) if a <= p < b}
+        got = next(set(s) for lo, hi, s in segs if lo <= p < hi)
+        if got != want:
+            out.append(('denotation', 'code %d maps to %s instead of %s' % (p, sorted(got), sorted(want))))
+            break
+    rep = {}
+    for ev_, st in items:
+        if isinstance(ev_, tuple):
+            rep[ev_] = set(st)
+    for lo, hi, s in segs:
+        if s and rep.get((lo, hi)) != set(s):
+            out.append(('iteritems', 'segment (%s, %s) -> %s is reported as %s' % (lo, hi, sorted(s), sorted(rep.get((lo, hi))) if (lo, hi) in rep else 'nothing')))
+    for (lo, hi), st in rep.items():
+        if not any(a == lo and b == hi and set(s) == st for a, b, s in segs):
+            out.append(('iteritems', 'iteritems() reports (%s, %s) -> %s which is not a segment of the map' % (lo, hi, sorted(st))))
+    return out
+
+
+def rule_tmap(px):
+    r = Rule('C50-TMAP', 'TransitionMap is a map from character codes to state sets: after any sequence of add / add_set calls with ranges whose end points realise every order '
+             'type (<= 3 ranges over 5 ordered codes and the two sentinels) the list keeps strictly increasing codes between -maxint and +maxint, every code class maps to '
+             'exactly the states added for it, and iteritems() reports every non-empty segment with its own bounds', floor=450)
+    pm = px.model()
+    maxint = pm.get('Transitions', 'maxint')
+    rel = px.rel('Transitions')
+    pts = [40, 50, 60, 70, 80]
+    ends = [-maxint] + pts + [maxint]
+    ranges = [(a, b) for i, a in enumerate(ends) for b in ends[i + 1:]]
+    finite = [(a, b) for a, b in ranges if a != -maxint and b != maxint]
+    four = [(a, b) for a, b in ranges if a in [-maxint] + pts[:4] and b in pts[:4] + [maxint]]
+    seqs = [[x] for x in ranges] + [[x, y] for x in four for y in four]
+    small = [(a, b) for a, b in finite if a in pts[:4] and b in pts[:4]]
+    seqs += [[x, y, z] for x in small for y in small for z in small]
+    probes = sorted({p + d for p in pts for d in (-1, 0)} | {pts[-1] + 1, -maxint, maxint - 1})
+    problems = {}
+    n = 0
+    for seq in seqs:
+        for use_set in ((False, True) if len(seq) < 3 and all(x in finite for x in seq) else (False,)):
+            n += 1
+
+            def run():
+                tm = pm.call('Transitions', 'TransitionMap')
+                for k, rg in enumerate(seq):
+                    if use_set:
+                        pm.method(tm, 'add_set', rg, {'S%d' % k})
+                    else:
+                        pm.method(tm, 'add', rg, 'S%d' % k)
+                return tm, list(pm.method(tm, 'iteritems'))
+            try:
+                tm, items = _guard('TransitionMap.add', run)
+            except PyRaise as e:
+                problems.setdefault('raises', (seq, use_set, 'raises %r' % (e.exc,)))
+                continue
+            for kind, msg in tmap_compare(tmap_segments(tm), items, seq, probes, maxint):
+                problems.setdefault(kind, (seq, use_set, msg))
+    for i in range(n):
+        r.inst('tmap:seq#%d' % i, sample='add sequence %d' % i, nontrivial=i < 50)
+    why = {'invariant': 'split() no longer keeps the code list sorted and duplicate-free', 'denotation': 'add()/add_set() mark the wrong segments',
+           'iteritems': 'the subset construction receives wrong character ranges', 'raises': 'the map operations fail'}
+    bad = tmap_compare([(-maxint, 40, set()), (40, 60, {'S0'}), (60, maxint, set())], [((40, 60), {'S0'})], [(40, 50)], probes, maxint)
+    r.positive_control([k for k, _ in bad] == ['denotation'], 'a map whose marked segment runs past the end of the added range')
+    for kind, (seq, use_set, msg) in sorted(problems.items()):
+        fn = {'invariant': 'split', 'denotation': 'add_set' if use_set else 'add', 'iteritems': 'iteritems', 'raises': 'add'}[kind]
+        r.violate('Transitions.TransitionMap.%s:%s' % (fn, kind), rel, px.method('Transitions', 'TransitionMap', fn).lineno,
+                  'after %s of %s: %s - %s, so characters lead to the wrong NFA/DFA states (evaluated by the checker on every order type of the end points)' % (
+                      'add_set' if use_set else 'add', ', '.join('(%s, %s)' % (('-inf' if a == -maxint else a), ('+inf' if b == maxint else b)) for a, b in seq), msg, why[kind]))
+    return r
+
+
+# ---------------------------------------------------------------------------------------------------------------- ROUTE
+def lexicon_route(r, init, add, rel):
+    """def-use of the initial NFA states in a Lexicon.__init__-like function: obligations are recorded on r"""
+    created = {}       # variable -> argument of new_initial_state
+    for n in ast.walk(init):
+        if isinstance(n, ast.Assign) and isinstance(n.value, ast.Call) and isinstance(n.value.func, ast.Attribute) and n.value.func.attr == 'new_initial_state' \
+                and len(n.targets) == 1 and isinstance(n.targets[0], ast.Name) and n.value.args:
+            created[n.targets[0].id] = (n.value.args[0], n)
+    if len(created) < 2:
+        raise AnalysisError('Lexicon.__init__: the initial states (default and per State spec) are no longer created by new_initial_state')
+
+    def branch_calls(stmts, cond):
+        out = []
+        for s in stmts:
+            if isinstance(s, ast.If):
+                out += branch_calls(s.body, cond + [s.test])
+                out += branch_calls(s.orelse, cond + [ast.UnaryOp(op=ast.Not(), operand=s.test)])
+            elif isinstance(s, (ast.For, ast.While, ast.With, ast.Try)):
+                out += branch_calls(s.body, cond)
+            else:
+                for c in ast.walk(s):
+                    if isinstance(c, ast.Call) and is_self_attr(c.func) and c.func.attr == add.name:
+                        out.append((c, cond))
+        return out
+    pnames = [a.arg for a in add.args.args[1:]]
+    # the parameter that receives the initial state is the one handed to build_machine as the start state
+    start_param = None
+    for c in ast.walk(add):
+        if isinstance(c, ast.Call) and isinstance(c.func, ast.Attribute) and c.func.attr == 'build_machine' and len(c.args) >= 2 and isinstance(c.args[1], ast.Name):
+            start_param = c.args[1].id
+    if start_param not in pnames:
+        raise AnalysisError('Lexicon.add_token_to_machine: the parameter handed to build_machine as initial state was not found')
+    k = pnames.index(start_param)
+    sites = branch_calls(init.body, [])
+    if not sites:
+        raise AnalysisError('Lexicon.__init__ no longer calls add_token_to_machine')
+    for c, cond in sites:
+        arg = c.args[k] if k < len(c.args) else next((kw.value for kw in c.keywords if kw.arg == start_param), None)
+        in_state_branch = any(isinstance(t, ast.Call) and isinstance(t.func, ast.Name) and t.func.id == 'isinstance' and len(t.args) == 2 and
+                              isinstance(t.args[1], ast.Name) and t.args[1].id == 'State' for t in cond)
+        key = 'Lexicons.Lexicon.__init__:initial-state:%s' % ('State' if in_state_branch else 'default')
+        r.inst(key, sample='%s tokens are built from %s' % ('State(...)' if in_state_branch else 'plain', node_src(arg) if arg is not None else None))
+        src = created.get(arg.id) if isinstance(arg, ast.Name) else None
+        ok = src is not None and (
+            (in_state_branch and isinstance(src[0], ast.Attribute) and src[0].attr == 'name') or
+            (not in_state_branch and isinstance(src[0], ast.Constant) and src[0].value == ''))
+        if not ok:
+            r.violate(key, rel, c.lineno, 'the tokens of %s are added to the automaton starting at `%s`%s: %s' % (
+                'a State(name, tokens) specification' if in_state_branch else 'the default scanner state', node_src(arg) if arg is not None else '?',
+                (' = new_initial_state(%s)' % node_src(src[0])) if src else '',
+                'they are recognised in the default state and the named state recognises nothing' if in_state_branch else 'plain tokens are not recognised in the default state'))
+
+
+def rule_route(px):
+    r = Rule('C50-ROUTE', 'scanner states keep their automata apart: tokens of a State(...) spec are attached to the initial NFA state created for that state name and plain '
+             'tokens to the default one; nfa_to_dfa registers each initial DFA state under the name of the NFA initial state it was built from; StateMap.make_key is '
+             'injective on state sets and independent of their order', floor=5)
+    # (1) Lexicon.__init__: def-use of the initial states
+    lexicon_route(r, px.method('Lexicons', 'Lexicon', '__init__'), px.method('Lexicons', 'Lexicon', 'add_token_to_machine'), px.rel('Lexicons'))
+    pc = ast.parse("class L:\n  def __init__(self, specs):\n    nfa = M()\n    d = nfa.new_initial_state('')\n    n = 1\n    for spec in specs:\n      if isinstance(spec, State):\n"
+                   "        u = nfa.new_initial_state(spec.name)\n        for t in spec.tokens:\n          self.add(nfa, d, t, n)\n          n += 1\n      else:\n        self.add(nfa, d, spec, n)\n        n += 1\n"
+                   "  def add(self, machine, initial_state, token_spec, token_number):\n    re.build_machine(machine, initial_state, f, match_bol=1, nocase=0)\n").body[0]
+    r2 = Rule('pc', 'pc', floor=0)
+    lexicon_route(r2, pc.body[0], pc.body[1], 'pc')
+    r.positive_control([f.construct.split(':')[-1] for f in r2.findings] == ['State'], 'State tokens attached to the default initial state')
+    # (2) nfa_to_dfa: key hand-through
+    f = px.func('DFA', 'nfa_to_dfa')
+    found = False
+    for loop in [n for n in ast.walk(f) if isinstance(n, ast.For)]:
+        it = loop.iter
+        if not (isinstance(it, ast.Call) and isinstance(it.func, ast.Attribute) and it.func.attr == 'items' and 'initial_states' in node_src(it.func.value)):
+            continue
+        tgt = loop.target
+        if not (isinstance(tgt, ast.Tuple) and len(tgt.elts) == 2 and all(isinstance(e, ast.Name) for e in tgt.elts)):
+            raise AnalysisError('nfa_to_dfa: loop over the initial states not understood')
+        kname, sname = tgt.elts[0].id, tgt.elts[1].id
+        for c in ast.walk(loop):
+            if isinstance(c, ast.Call) and isinstance(c.func, ast.Attribute) and c.func.attr == 'make_initial_state' and len(c.args) == 2:
+                found = True
+                r.inst('DFA.nfa_to_dfa:initial-key', sample=node_src(c))
+                a0 = c.args[0]
+                env = {}
+                for a in ast.walk(loop):
+                    if isinstance(a, ast.Assign) and len(a.targets) == 1 and isinstance(a.targets[0], ast.Name):
+                        env.setdefault(a.targets[0].id, []).append(a.value)
+                while isinstance(a0, ast.Name) and a0.id != kname and len(env.get(a0.id, ())) == 1:
+                    a0 = env[a0.id][0]
+                if not (isinstance(a0, ast.Name) and a0.id == kname):
+                    r.violate('DFA.nfa_to_dfa:initial-key', px.rel('DFA'), c.lineno,
+                              'the DFA state built from the NFA initial state named `%s` is registered as %s: Scanner.begin(name) starts in the automaton of another state' % (kname, node_src(c.args[0])))
+                # the state registered must derive from the loop's NFA state
+                if not any(isinstance(x, ast.Name) and x.id == sname for x in ast.walk(loop)):
+                    r.violate('DFA.nfa_to_dfa:initial-state', px.rel('DFA'), c.lineno, 'the initial DFA state is not built from the NFA initial state of the loop')
+    if not found:
+        raise AnalysisError('nfa_to_dfa: registration of the initial DFA states not found')
+    # (3) make_key: injective and order independent
+    pm = px.model()
+
+    def keys():
+        nodes = [pm.call('Machines', 'Node') for _ in range(3)]
+        for i, nd in enumerate(nodes):
+            nd.attrs['number'] = i + 1
+        sm = pm.call('DFA', 'StateMap', NS())
+        out = {}
+        import itertools
+        for k in range(0, 4):
+            for comb in itertools.combinations(range(3), k):
+                ks = set()
+                for perm in itertools.permutations(comb):
+                    s = set()
+                    for i in perm:
+                        s.add(nodes[i])
+                    ks.add(pm.method(sm, 'make_key', s))
+                out[comb] = ks
+        return out
+    try:
+        table = _guard('StateMap.make_key', keys)
+    except PyRaise as e:
+        raise AnalysisError('StateMap.make_key raises %r on a set of Node objects' % (e.exc,))
+    r.inst('DFA.StateMap.make_key:injective', sample='%d subsets of 3 states' % len(table))
+    r.inst('DFA.StateMap.make_key:order-independent')
+    mk = px.method('DFA', 'StateMap', 'make_key')
+    for comb, ks in table.items():
+        if len(ks) != 1:
+            r.violate('DFA.StateMap.make_key:order-independent', px.rel('DFA'), mk.lineno, 'make_key gives %d different keys for the same set of %d states' % (len(ks), len(comb)))
+            break
+    seen = {}
+    for comb, ks in sorted(table.items()):
+        for kx in ks:
+            try:
+                hash(kx)
+            except TypeError:
+                raise AnalysisError('make_key result is not hashable in the model')
+            if kx in seen and seen[kx] != comb:
+                r.violate('DFA.StateMap.make_key:injective', px.rel('DFA'), mk.lineno,
+                          'the state sets %s and %s get the same key: the subset construction reuses the DFA state (action and transitions) of another set of NFA states' % (
+                              [i + 1 for i in seen[kx]], [i + 1 for i in comb]))
+                return r
+            seen[kx] = comb
+    return r
+
+
+# ---------------------------------------------------------------------------------------------------------------- BUF
+class Lin:
+    """integer linear form: {symbol: coefficient} + constant"""
+
+    def __init__(self, terms=None, const=0):
+        self.terms = {k: v for k, v in (terms or {}).items() if v}
+        self.const = const
+
+    @staticmethod
+    def sym(name):
+        return Lin({name: 1})
+
+    def __add__(self, o):
+        t = dict(self.terms)
+        for k, v in o.terms.items():
+            t[k] = t.get(k, 0) + v
+        return Lin(t, self.const + o.const)
+
+    def __neg__(self):
+        return Lin({k: -v for k, v in self.terms.items()}, -self.const)
+
+    def __sub__(self, o):
+        return self + (-o)
+
+    def __eq__(self, o):
+        return isinstance(o, Lin) and self.terms == o.terms and self.const == o.const
+
+    def __hash__(self):
+        return hash((tuple(sorted(self.terms.items())), self.const))
+
+    def __repr__(self):
+        parts = []
+        for k, v in sorted(self.terms.items()):
+            parts.append(('%s' % k) if v == 1 else ('-%s' % k) if v == -1 else '%d*%s' % (v, k))
+        if self.const or not parts:
+            parts.append(str(self.const))
+        return ' + '.join(parts).replace('+ -', '- ')
+
+
+class Win:
+    """a string known as a window of the input: element k is the input character at absolute position origin + k"""
+
+    def __init__(self, origin, length):
+        self.origin, self.length = origin, length
+
+    def __repr__(self):
+        return 'input[%r : +%r]' % (self.origin, self.length)
+
+
+class BufGiveUp(Exception):
+    pass
+
+
+def provably_nonpositive(form, order):
+    """is `form` <= 0 for all integers respecting the chain a0 <= a1 <= ... (order = list of symbols)?  Decided for forms that are a sum of
+    (earlier - later) differences plus a non-positive constant."""
+    if not form.terms:
+        return form.const <= 0
+    if form.const > 0 or any(k not in order for k in form.terms):
+        return False
+    # prefix sums along the chain, scanned from the largest symbol down, must stay <= 0 and the total must be 0
+    if sum(form.terms.values()) != 0:
+        return False
+    acc = 0
+    for s in reversed(order):
+        acc += form.terms.get(s, 0)
+        if acc > 0:
+            return False
+    return True
+
+
+class BufExec:
+    def __init__(self, self_name, mirrors):
+        self.self_name, self.mirrors = self_name, mirrors
+        self.env = {}
+
+    def sym_of(self, n):
+        if isinstance(n, ast.Name):
+            return n.id
+        if isinstance(n, ast.Attribute) and isinstance(n.value, ast.Name) and n.value.id == self.self_name:
+            return 'self.' + n.attr
+        return None
+
+    def load(self, key):
+        if key in self.env:
+            return self.env[key]
+        base = key[5:] if key.startswith('self.') else key
+        if key.startswith('self.') and base in self.mirrors and base in self.env and ('self.' + base) not in self.env:
+            return self.initial(base)
+        return self.initial(base)
+
+    def initial(self, base):
+        if base == 'buffer':
+            return Win(Lin.sym('buf_start_pos0'), Lin.sym('L'))
+        if base == 'buf_start_pos':
+            return Lin.sym('buf_start_pos0')
+        if base == 'buf_len':
+            return Lin.sym('L')
+        return Lin.sym(base)
+
+    def ev(self, n):
+        k = self.sym_of(n)
+        if k is not None:
+            return self.load(k)
+        if isinstance(n, ast.Constant) and isinstance(n.value, int) and not isinstance(n.value, bool):
+            return Lin(const=n.value)
+        if isinstance(n, ast.UnaryOp) and isinstance(n.op, ast.USub):
+            v = self.ev(n.operand)
+            if isinstance(v, Lin):
+                return -v
+        if isinstance(n, ast.BinOp) and isinstance(n.op, (ast.Add, ast.Sub)):
+            a, b = self.ev(n.left), self.ev(n.right)
+            if isinstance(a, Lin) and isinstance(b, Lin):
+                return a + b if isinstance(n.op, ast.Add) else a - b
+            if isinstance(a, Win) and isinstance(b, Win) and isinstance(n.op, ast.Add):
+                if a.origin + a.length == b.origin:
+                    return Win(a.origin, a.length + b.length)
+                return ('noncontiguous', a, b)
+        if isinstance(n, ast.Call) and isinstance(n.func, ast.Name) and n.func.id == 'len' and len(n.args) == 1:
+            v = self.ev(n.args[0])
+            if isinstance(v, Win):
+                return v.length
+        if isinstance(n, ast.Call) and isinstance(n.func, ast.Attribute) and n.func.attr == 'read':
+            # the stream continues where the buffered text ends
+            cur = self.load('self.buffer')
+            if isinstance(cur, Win):
+                return Win(cur.origin + cur.length, Lin.sym('N'))
+        if isinstance(n, ast.Subscript) and isinstance(n.slice, ast.Slice) and n.slice.step is None:
+            v = self.ev(n.value)
+            if isinstance(v, Win):
+                lo = self.ev(n.slice.lower) if n.slice.lower is not None else Lin()
+                if n.slice.upper is None and isinstance(lo, Lin):
+                    return Win(v.origin + lo, v.length - lo)
+        raise BufGiveUp(node_src(n, 60))
+
+    def run(self, stmts):
+        for s in stmts:
+            if isinstance(s, ast.Assign) and len(s.targets) == 1:
+                k = self.sym_of(s.targets[0])
+                if k is None:
+                    raise BufGiveUp(node_src(s, 60))
+                self.store(k, self.ev(s.value))
+            elif isinstance(s, ast.AnnAssign) and s.value is not None:
+                k = self.sym_of(s.target)
+                if k is None:
+                    raise BufGiveUp(node_src(s, 60))
+                self.store(k, self.ev(s.value))
+            elif isinstance(s, ast.AugAssign) and isinstance(s.op, (ast.Add, ast.Sub)):
+                k = self.sym_of(s.target)
+                cur, v = self.load(k), self.ev(s.value)
+                if not (isinstance(cur, Lin) and isinstance(v, Lin)):
+                    raise BufGiveUp(node_src(s, 60))
+                self.store(k, cur + v if isinstance(s.op, ast.Add) else cur - v)
+            elif isinstance(s, (ast.Pass, ast.Expr)):
+                continue
+            else:
+                raise BufGiveUp(node_src(s, 60))
+
+    def store(self, k, v):
+        self.env[k] = v
+
+
+def _find_refill(fn):
+    """(statements before, If node, refill statement list) for the `if <index> < <len>: ... else: <refill>` of the scan loop"""
+    def rec(stmts):
+        for i, s in enumerate(stmts):
+            if isinstance(s, ast.If) and any(isinstance(c, ast.Call) and isinstance(c.func, ast.Attribute) and c.func.attr == 'read' for x in s.orelse for c in ast.walk(x)) \
+                    and not any(isinstance(c, ast.Call) and isinstance(c.func, ast.Attribute) and c.func.attr == 'read' for x in s.body for c in ast.walk(x)):
+                return stmts[:i], s
+            for sub in ('body', 'orelse'):
+                if hasattr(s, sub) and isinstance(getattr(s, sub), list):
+                    r = rec(getattr(s, sub))
+                    if r:
+                        return r
+        return None
+    return rec(fn.body)
+
+
+def rule_buffer(px):
+    r = Rule('C50-BUF', 'the scan loop\'s buffer stays a window of the input: after a refill the kept text and the new data are contiguous, buf_start_pos (local and on self) '
+             'is the position of buffer[0], buf_len its length, buf_index the offset of the next unread position, the window still contains the start of the current token, '
+             'and the position advances by one for each character read; scan_a_token cuts the token text with both bounds rebased by buf_start_pos (linear forms, symbolic)', floor=8)
+    rel = px.rel('Scanners')
+    cls = px.cls('Scanners', 'Scanner')
+    loops = [m for m in cls.body if isinstance(m, ast.FunctionDef) and any(isinstance(n, ast.While) for n in walk_no_nested(m)) and _find_refill(m)]
+    if not loops:
+        raise AnalysisError('Scanner: the method with the scan loop and the buffer refill was not found')
+    fn = loops[0]
+    me = fn.args.args[0].arg
+    mirrors = set()
+    for s in fn.body:
+        tgt, val = (s.targets[0], s.value) if isinstance(s, ast.Assign) and len(s.targets) == 1 else (s.target, s.value) if isinstance(s, ast.AnnAssign) else (None, None)
+        if isinstance(tgt, ast.Name) and is_self_attr(val) and val.attr == tgt.id:
+            mirrors.add(tgt.id)
+    before, ifnode = _find_refill(fn)
+    qual = 'Scanners.Scanner.%s' % fn.name
+
+    def analyse(before, ifnode):
+        """-> list of (key suffix, line, message)"""
+        out = []
+        # the straight-line statements in front of the If that belong to the read (index computation)
+        pre = []
+        for s in reversed(before):
+            if isinstance(s, (ast.Assign, ast.AnnAssign, ast.AugAssign)):
+                pre.insert(0, s)
+            else:
+                break
+        refill = ifnode.orelse
+        data_if = next((s for s in refill if isinstance(s, ast.If)), None)
+        straight = [s for s in refill if not isinstance(s, ast.If)]
+        if data_if is None or refill.index(data_if) != len(refill) - 1:
+            raise BufGiveUp('shape of the refill block')
+        ex = BufExec(me, mirrors)
+        ex.run(pre)
+        pos_sym = None
+        # which position variable indexes the buffer: index = P - buf_start_pos
+        idx_name = ifnode.test.left.id if isinstance(ifnode.test, ast.Compare) and isinstance(ifnode.test.left, ast.Name) else None
+        if idx_name is None or idx_name not in ex.env or not isinstance(ex.env[idx_name], Lin):
+            raise BufGiveUp('buffer index of the read')
+        f0 = ex.env[idx_name] + Lin.sym('buf_start_pos0')
+        if len(f0.terms) != 1 or f0.const != 0:
+            out.append(('index', ifnode.lineno, 'the buffer index %s = %r is not <position> - buf_start_pos' % (idx_name, ex.env[idx_name])))
+            return out, None
+        pos_sym = next(iter(f0.terms))
+        ex.run(straight)
+        buf, sbuf = ex.load('buffer'), ex.load('self.buffer')
+        for v in (buf, sbuf):
+            if isinstance(v, tuple) and v[0] == 'noncontiguous':
+                out.append(('contiguous', refill[0].lineno, 'the kept part %r and the new data %r are not adjacent in the input: characters are lost or duplicated at every refill' % (v[1], v[2])))
+                return out, pos_sym
+        if not isinstance(buf, Win) or not isinstance(sbuf, Win):
+            raise BufGiveUp('buffer value after the refill')
+        if not (buf.origin == sbuf.origin and buf.length == sbuf.length):
+            out.append(('self.buffer', refill[0].lineno, 'after the refill the local buffer is %r but self.buffer is %r' % (buf, sbuf)))
+        for nm in ('buf_start_pos', 'self.buf_start_pos'):
+            v = ex.load(nm)
+            if not (isinstance(v, Lin) and v == buf.origin):
+                out.append((nm, refill[0].lineno, 'after the refill buffer[0] is the input position %r but %s is %r: every later buffer offset (and the token text) is shifted' % (buf.origin, nm, v)))
+        v = ex.load('buf_len')
+        if not (isinstance(v, Lin) and v == buf.length):
+            out.append(('buf_len', refill[0].lineno, 'after the refill the buffer holds %r characters but buf_len is %r' % (buf.length, v)))
+        v = ex.load(idx_name)
+        want = Lin.sym(pos_sym) - buf.origin
+        if not (isinstance(v, Lin) and v == want):
+            out.append(('index-after-refill', refill[0].lineno, 'after the refill the next unread character (position %s) is buffer[%r] but %s is %r' % (pos_sym, want, idx_name, v)))
+        # the window must still contain the start of the token being scanned
+        d = buf.origin - Lin.sym('start_pos')
+        if not provably_nonpositive(d, ['buf_start_pos0', 'start_pos', 'cur_pos', 'next_pos']):
+            out.append(('keeps-token-start', refill[0].lineno,
+                        'the refill discards the input before position %r, which is not known to be <= start_pos: the beginning of a token that spans a read boundary '
+                        'is dropped from the buffer and scan_a_token returns the wrong text' % (buf.origin,)))
+        # both reading branches: c = buffer[index]; position += 1
+        for branch, name in ((ifnode.body, 'buffered'), (data_if.body, 'refilled')):
+            reads = [s for s in branch if isinstance(s, ast.Assign) and isinstance(s.value, ast.Subscript) and isinstance(s.value.slice, ast.Name) and s.value.slice.id == idx_name]
+            inc = [s for s in branch if isinstance(s, ast.AugAssign) and isinstance(s.op, ast.Add) and ex.sym_of(s.target) in (pos_sym, 'self.' + pos_sym) and
+                   isinstance(s.value, ast.Constant) and s.value.value == 1]
+            inc += [s for s in branch if isinstance(s, ast.Assign) and ex.sym_of(s.targets[0]) == pos_sym and isinstance(s.value, ast.BinOp) and isinstance(s.value.op, ast.Add) and
+                    {node_src(s.value.left), node_src(s.value.right)} == {pos_sym, '1'}]
+            if reads and len(inc) != 1:
+                out.append(('advance:' + name, branch[0].lineno, 'the %s branch reads buffer[%s] but advances %s %d times: the character is read twice or the next one skipped' % (name, idx_name, pos_sym, len(inc))))
+            if not reads:
+                raise BufGiveUp('read of the %s branch' % name)
+        return out, pos_sym
+    try:
+        probs, pos_sym = analyse(before, ifnode)
+    except BufGiveUp as e:
+        raise AnalysisError('%s: buffer refill not understood by the linear-form analysis (%s)' % (qual, e))
+    for k in ('contiguous', 'self.buffer', 'buf_start_pos', 'self.buf_start_pos', 'buf_len', 'index-after-refill', 'keeps-token-start', 'advance:buffered', 'advance:refilled'):
+        r.inst('%s:refill:%s' % (qual, k), sample='%s refill: %s' % (fn.name, k))
+    for k, line, msg in probs:
+        r.violate('%s:refill:%s' % (qual, k), rel, line, '%s: %s' % (qual, msg))
+    # token text
+    found = False
+    for m in cls.body:
+        if not isinstance(m, ast.FunctionDef):
+            continue
+        for n in walk_no_nested(m):
+            if isinstance(n, ast.Subscript) and isinstance(n.slice, ast.Slice) and is_self_attr(n.value) and n.value.attr == 'buffer' and m is not fn \
+                    and n.slice.lower is not None and n.slice.upper is not None:
+                found = True
+                ex = BufExec(m.args.args[0].arg, set())
+                # locals assigned once in the method are substituted
+                env = {}
+                for a in walk_no_nested(m):
+                    if isinstance(a, ast.Assign) and len(a.targets) == 1 and isinstance(a.targets[0], ast.Name):
+                        env.setdefault(a.targets[0].id, []).append(a.value)
+
+                def subst(e):
+                    while isinstance(e, ast.Name) and len(env.get(e.id, ())) == 1:
+                        e = env[e.id][0]
+                    return e
+                try:
+                    lo, hi = ex.ev(subst(n.slice.lower)), ex.ev(subst(n.slice.upper))
+                except BufGiveUp as e:
+                    raise AnalysisError('Scanner.%s: bounds of the token text slice not understood (%s)' % (m.name, e))
+                for which, v, want in (('start', lo, 'start_pos'), ('end', hi, 'cur_pos')):
+                    key = 'Scanners.Scanner.%s:text:%s' % (m.name, which)
+                    r.inst(key, sample='token text %s bound = %r' % (which, v))
+                    if not (isinstance(v, Lin) and v + Lin.sym('buf_start_pos0') == Lin.sym(want)):
+                        r.violate(key, rel, n.lineno, 'Scanner.%s cuts the token text at buffer offset %r; buffer[0] is the input position buf_start_pos, so the %s of the token '
+                                  '(%s) is at offset %s - buf_start_pos: wrong token text once the buffer has been refilled' % (m.name, v, which, want, want))
+    if not found:
+        raise AnalysisError('Scanner: the slice of self.buffer that yields the token text was not found')
+    # positive control: discard computed from the current position
+    pc = ast.parse("def run(self):\n  buf_start_pos = self.buf_start_pos\n  buffer = self.buffer\n  while 1:\n    buf_index = next_pos - buf_start_pos\n    if buf_index < buf_len:\n      c = buffer[buf_index]\n      next_pos += 1\n"
+                   "    else:\n      discard = cur_pos - buf_start_pos\n      data = self.stream.read(4096)\n      buffer = self.buffer[discard:] + data\n      self.buffer = buffer\n      buf_start_pos += discard\n"
+                   "      self.buf_start_pos = buf_start_pos\n      buf_len = len(buffer)\n      buf_index -= discard\n      if data:\n        c = buffer[buf_index]\n        next_pos += 1\n").body[0]
+    b2, i2 = _find_refill(pc)
+    fn_save, me_save = fn, me
+    p2, _ = analyse(b2, i2)
+    r.positive_control([k for k, _, _ in p2] == ['keeps-token-start'], 'refill that discards up to the current position')
     return r
